@@ -141,7 +141,7 @@ def reach_cycle(n, edges, start):
     return dfs(start)
 
 
-def run_graph(ctx, n, edges, real, start):
+def run_graph(ctx, n, edges, real, start, title="Tt"):
     """Installs the library, expands {{t<start>}}, returns list of (oracle, obs, exp)."""
     lib = {"e": (("P", "1", None), "none")}
     ctx.add_page("Template:e", 10, "{{{1}}}")
@@ -151,7 +151,7 @@ def run_graph(ctx, n, edges, real, start):
         ctx.add_page("Template:t%d" % i, 10, body)
         lib["t%d" % i] = (("SEQ", [("T", "T%d" % i)] + [edge_ast(real, j) for j in outs if edge_ast(real, j) is not None]), "none")
     type(ctx).get_page.cache_clear()
-    ctx.start_page("Tt")
+    ctx.start_page(title)
     out = []
     try:
         with time_limit(GRAPH_LIMIT):
@@ -299,6 +299,13 @@ def work(payload, skip, report):
                     acc.distinct("cases", case)
                     for o, ob, ex in res:
                         acc.violation(o, case, ob, ex)
+                    if n <= 2:
+                        # the same on the page of the start template itself: the page title is not an open template frame
+                        case2 = dict(case, page_title="Template:t%d" % start)
+                        res = run_graph(ctx, n, edges, real, start, "Template:t%d" % start)
+                        acc.case()
+                        for o, ob, ex in res:
+                            acc.violation(o + ":on_the_template's_own_page", case2, ob, ex)
         acc.sample({"templates": n, "graphs": len(graphs)})
     elif kind == "redirects":
         _, n, sets = payload
